@@ -645,8 +645,8 @@ def r12_11(chk, P, rule='R12.11'):
             return None
         if all('init' in fl for (e, fl, v, env) in rets):
             summ[key] = 'all'
-        elif all('init' in fl for (e, fl, v, env) in rets if v is None or (v.lo <= 0 <= v.hi)) and \
-                any(v is not None and v.lo <= 0 <= v.hi for (e, fl, v, env) in rets):
+        elif all('init' in fl for (e, fl, v, env) in rets if v is None or (v.lo <= 0 <= v.hi and 0 not in (v.ne or ()))) and \
+                any(v is not None and v.lo <= 0 <= v.hi and 0 not in (v.ne or ()) for (e, fl, v, env) in rets):
             summ[key] = 'zero'
         return summ[key]
 
